@@ -74,9 +74,21 @@ def main() -> int:
 
         res["initial"] = snap()
         for b in spec["builds"]:
+            root = Path(spec["root"])
+            if "ctl" in b:
+                # what task bodies read at run time (not a declared dependency): lets a task fail in one build and pass in the next
+                (root / b["sub"] / "ctl.txt").write_text(b["ctl"])
+            db = root / ".pytask" / "pytask.sqlite3"
+            aside = root / ".pytask" / "pytask.sqlite3.aside"
+            if b.get("corrupt_db"):
+                # a database file that is not a database: create_database fails while pytask is configured
+                db.parent.mkdir(exist_ok=True)
+                if db.exists():
+                    db.rename(aside)
+                db.write_text("this is not a database " * 40)
             rec = {"before": snap()}
             try:
-                session = pytask.build(paths=Path(spec["root"]) / b["sub"], **b["kw"])
+                session = pytask.build(paths=root / b["sub"], **b["kw"])
                 rec["exit"] = int(session.exit_code)
                 rec["tasks"] = sorted(t.name.split("::")[-1] for t in session.tasks)
                 rec["reports"] = [[r.task.name.split("::")[-1], r.outcome.name] for r in session.execution_reports]
@@ -84,6 +96,10 @@ def main() -> int:
             except BaseException as e:  # noqa: BLE001
                 rec["raised"] = f"{type(e).__name__}: {e}"
             rec["after"] = snap()
+            if b.get("corrupt_db"):
+                db.unlink(missing_ok=True)
+                if aside.exists():
+                    aside.rename(db)
             res["builds"].append(rec)
     except BaseException as e:  # noqa: BLE001
         res["harness_error"] = f"{type(e).__name__}: {e}"
